@@ -22,7 +22,7 @@ Inductive fstep :=
 | FRestart (stores : list Z)
 | FFetch (lg : Z) (o max : Z) (code hw : Z) (r : fobs).
 
-Record fcase := mkFCase { fk_interval : Z; fk_sync : bool; fk_steps : list fstep }.
+Record fcase := mkFCase { fk_interval : Z; fk_sync : bool; fk_ext : bool; fk_steps : list fstep }.
 
 Definition lstate := (plog * list batch)%type.
 Definition dummy_l : lstate := (init_log 1 true 0, []).
@@ -54,7 +54,7 @@ Fixpoint restore_all (ls : list lstate) (stores : list Z) : list lstate :=
   | _, _ => ls
   end.
 
-Fixpoint check_fsteps (sync : bool) (ls : list lstate) (steps : list fstep) : bool :=
+Fixpoint check_fsteps (v : variant) (sync : bool) (ls : list lstate) (steps : list fstep) : bool :=
   match steps with
   | [] => true
   | FProduce lg p flush acked code base :: r =>
@@ -64,24 +64,24 @@ Fixpoint check_fsteps (sync : bool) (ls : list lstate) (steps : list fstep) : bo
                    else hist ++ [last (l_buffer l1) (mkBatch 0 0 0 [])] in
       let l2 := if flush then flush_log l1 else l1 in
       (if acked then (code =? 0) && (base =? l_next l) else true)
-      && check_fsteps sync (set_nth ls (Z.to_nat lg) (l2, hist')) r
+      && check_fsteps v sync (set_nth ls (Z.to_nat lg) (l2, hist')) r
   | FFlush lg :: r =>
       let '(l, hist) := get ls lg in
-      check_fsteps sync (set_nth ls (Z.to_nat lg) (flush_log l, hist)) r
-  | FRestart stores :: r => check_fsteps sync (restore_all ls stores) r
+      check_fsteps v sync (set_nth ls (Z.to_nat lg) (flush_log l, hist)) r
+  | FRestart stores :: r => check_fsteps v sync (restore_all ls stores) r
   | FFetch lg o max code hw x :: r =>
       let '(l, hist) := get ls lg in
       let hwm := model_hw sync l in
       (hw =? hwm)
-      && (match fetch l true hwm o max with
+      && (match fetch_gen v l true hwm o max with
           | FOffsetOutOfRange => (code =? 1) && match x with YNone => true | _ => false end
           | FEmpty => (code =? 0) && match x with YNone => true | _ => false end
           | FRecords d => (code =? 0) && fobs_eqb hist d x
           | FBackpressure => false
           end)
-      && check_fsteps sync ls r
+      && check_fsteps v sync ls r
   end.
 
 Definition check_fcase (k : fcase) : bool :=
   let l0 := (init_log (fk_interval k) true 0, @nil batch) in
-  check_fsteps (fk_sync k) [l0; l0; l0] (fk_steps k).
+  check_fsteps (if fk_ext k then VFull else VFloor) (fk_sync k) [l0; l0; l0] (fk_steps k).
